@@ -1173,6 +1173,176 @@ theorem decCertificateRequestAt_shape (st : Stack) (hdr body : Bytes) {m : Certi
                         Spec.Codec.isNil, Spec.Codec.seqOk, hit, Bool.and_self]
                     · cases h
 
+theorem nonEmptyVec16_eq_some {s c r : Bytes} (h : Spec.Codec.nonEmptyVec16 s = some (c, r)) :
+    s = caItem c ++ r ∧ 0 < c.length ∧ c.length < 65536 := by
+  unfold Spec.Codec.nonEmptyVec16 at h
+  cases hv : readVec16 s with
+  | none => rw [hv] at h; cases h
+  | some p =>
+    obtain ⟨c', r'⟩ := p
+    rw [hv] at h
+    simp only at h
+    split at h
+    · cases h
+    · rename_i hne
+      simp only [Option.some.injEq, Prod.mk.injEq] at h
+      obtain ⟨h1, h2⟩ := h
+      subst h1; subst h2
+      obtain ⟨hs, hl⟩ := readVec16_eq_some hv
+      refine ⟨hs, ?_, hl⟩
+      cases c' with
+      | nil => simp [Spec.Codec.isNil] at hne
+      | cons _ _ => simp
+
+theorem nonEmptyVec16_append {c : Bytes} (h0 : 0 < c.length) (h1 : c.length < 65536) (r : Bytes) :
+    Spec.Codec.nonEmptyVec16 (caItem c ++ r) = some (c, r) := by
+  unfold Spec.Codec.nonEmptyVec16 caItem
+  rw [readVec16_append h1]
+  cases c with
+  | nil => simp at h0
+  | cons _ _ => simp [Spec.Codec.isNil]
+
+theorem nonEmptyVec8_eq_some {s c r : Bytes} (h : Spec.Codec.nonEmptyVec8 s = some (c, r)) :
+    s = u8 c.length :: (c ++ r) ∧ 0 < c.length ∧ c.length < 256 := by
+  unfold Spec.Codec.nonEmptyVec8 at h
+  cases hv : readVec8 s with
+  | none => rw [hv] at h; cases h
+  | some p =>
+    obtain ⟨c', r'⟩ := p
+    rw [hv] at h
+    simp only at h
+    split at h
+    · cases h
+    · rename_i hne
+      simp only [Option.some.injEq, Prod.mk.injEq] at h
+      obtain ⟨h1, h2⟩ := h
+      subst h1; subst h2
+      obtain ⟨hs, hl⟩ := readVec8_eq_some hv
+      refine ⟨hs, ?_, hl⟩
+      cases c' with
+      | nil => simp [Spec.Codec.isNil] at hne
+      | cons _ _ => simp
+
+theorem nonEmptyVec8_append {c : Bytes} (h0 : 0 < c.length) (h1 : c.length < 256) (r : Bytes) :
+    Spec.Codec.nonEmptyVec8 (u8 c.length :: (c ++ r)) = some (c, r) := by
+  unfold Spec.Codec.nonEmptyVec8
+  have := readVec8_append h1 r
+  simp only [List.cons_append] at this
+  rw [this]
+  cases c with
+  | nil => simp at h0
+  | cons _ _ => simp [Spec.Codec.isNil]
+
+theorem sumLen2_eq (cas : List Bytes) : Spec.Codec.sumLen cas 2 = (concatMap caItem cas).length := by
+  induction cas with
+  | nil => rfl
+  | cons x xs ih =>
+    simp only [Spec.Codec.sumLen, List.foldr_cons, concatMap, List.length_append, caItem_length] at ih ⊢
+    omega
+
+/-- the body the spec's strict certificate-request decoder accepts is the encoder's -/
+theorem strictCertReq_body {body : Bytes} {types lst r : Bytes} {cas : List Bytes}
+    (h1 : Spec.Codec.nonEmptyVec8 body = some (types, r)) (h2 : readVec16 r = some (lst, []))
+    (h3 : many Spec.Codec.nonEmptyVec16 lst.length lst = some cas) :
+    body = encCertificateRequestBody ⟨types, cas⟩ ∧ (0 < types.length ∧ types.length < 256) ∧
+      (∀ x ∈ cas, 0 < x.length ∧ x.length < 65536) ∧ (concatMap caItem cas).length < 65536 := by
+  obtain ⟨hb, ht0, ht1⟩ := nonEmptyVec8_eq_some h1
+  obtain ⟨hr, hll⟩ := readVec16_eq_some h2
+  rw [List.append_nil] at hr
+  have hlst := many_eq_some Spec.Codec.nonEmptyVec16 caItem (fun s x r hh => (nonEmptyVec16_eq_some hh).1) _ _ _ h3
+  have hok := many_all Spec.Codec.nonEmptyVec16 (fun x => 0 < x.length ∧ x.length < 65536)
+    (fun s x r hh => (nonEmptyVec16_eq_some hh).2) _ _ _ h3
+  refine ⟨?_, ⟨ht0, ht1⟩, hok, by rw [← hlst]; exact hll⟩
+  rw [hb, hr, hlst]; rfl
+
+theorem canon_certificateRequest (c : Codes) (ht : c.tCertificateRequest = 13) (hhl : c.hl = 4)
+    {b : Bytes} {h : DHdr} {m : CertificateRequest}
+    (hs : Spec.Codec.strictCertificateRequest .tlcp b = some (h, m)) :
+    encCertificateRequest c m = some b ∧ decCertificateRequest c b = .ok m ∧
+      Spec.Codec.wfCertificateRequest m = true := by
+  unfold Spec.Codec.strictCertificateRequest at hs
+  cases hsh : Spec.Codec.strictHeader .tlcp .certificateRequest b with
+  | none => rw [hsh] at hs; cases hs
+  | some p =>
+    obtain ⟨hd, body⟩ := p
+    rw [hsh] at hs
+    simp only at hs
+    cases h1 : Spec.Codec.nonEmptyVec8 body with
+    | none => rw [h1] at hs; cases hs
+    | some q =>
+      obtain ⟨types, r⟩ := q
+      rw [h1] at hs
+      simp only at hs
+      cases h2 : readVec16 r with
+      | none => rw [h2] at hs; cases hs
+      | some q2 =>
+        obtain ⟨lst, r2⟩ := q2
+        rw [h2] at hs
+        cases r2 with
+        | cons x xs => simp at hs
+        | nil =>
+          simp only at hs
+          cases h3 : many Spec.Codec.nonEmptyVec16 lst.length lst with
+          | none => rw [h3] at hs; cases hs
+          | some cas =>
+            rw [h3] at hs
+            simp only [Option.some.injEq, Prod.mk.injEq] at hs
+            obtain ⟨_, hmm⟩ := hs
+            subst hmm
+            obtain ⟨hb, hl, _⟩ := strictHeader_tlcp_eq hsh
+            obtain ⟨hbody, hty, hok, hcl⟩ := strictCertReq_body h1 h2 h3
+            have hk : Kind.certificateRequest.code = c.tCertificateRequest := by rw [ht]; rfl
+            rw [hk] at hb
+            refine ⟨?_, ?_, ?_⟩
+            · simp only [encCertificateRequest]; rw [hb, hbody]
+            · have := rt_certificateRequestAt (u8 c.tCertificateRequest) [] ⟨types, cas⟩ hty
+                (fun x hx => (hok x hx).2) hcl
+              simp only [List.length_nil, Nat.add_zero, List.append_nil] at this
+              rw [decCertificateRequest, hhl, hb, hbody]
+              exact this
+            · simp only [Spec.Codec.wfCertificateRequest, hty, and_self, decide_true, Bool.true_and,
+                sumLen2_eq, hcl, Bool.and_true, Spec.Codec.allB, List.all_eq_true, decide_eq_true_eq]
+              intro x hx; exact (hok x hx).1
+
+theorem wfCertReq_parts {m : CertificateRequest} (hw : Spec.Codec.wfCertificateRequest m = true) :
+    (0 < m.types.length ∧ m.types.length < 256) ∧ (∀ x ∈ m.cas, 0 < x.length ∧ x.length < 65536) ∧
+      (concatMap caItem m.cas).length < 65536 := by
+  simp only [Spec.Codec.wfCertificateRequest, Bool.and_eq_true, decide_eq_true_eq, Spec.Codec.allB,
+    List.all_eq_true, sumLen2_eq] at hw
+  obtain ⟨⟨ht, hne⟩, hsum⟩ := hw
+  refine ⟨ht, ?_, hsum⟩
+  intro x hx
+  refine ⟨hne x hx, ?_⟩
+  have : x.length ≤ (concatMap caItem m.cas).length := by
+    generalize m.cas = l at hx
+    induction l with
+    | nil => cases hx
+    | cons y ys ih =>
+      simp only [concatMap, List.length_append, caItem_length]
+      rcases List.mem_cons.mp hx with hx | hx
+      · subst hx; omega
+      · have := ih hx; omega
+  omega
+
+theorem complete_certificateRequest (c : Codes) (ht : c.tCertificateRequest = 13) (m : CertificateRequest)
+    (hw : Spec.Codec.wfCertificateRequest m = true) :
+    ∃ b, encCertificateRequest c m = some b ∧ Spec.Codec.strictCertificateRequest .tlcp b = some (zeroH, m) := by
+  obtain ⟨hty, hok, hcl⟩ := wfCertReq_parts hw
+  refine ⟨_, rfl, ?_⟩
+  have hk : c.tCertificateRequest = Kind.certificateRequest.code := by rw [ht]; rfl
+  have hbl : (encCertificateRequestBody m).length < 16777216 := by
+    simp [encCertificateRequestBody, be16]; omega
+  unfold Spec.Codec.strictCertificateRequest
+  rw [hk, strictHeader_tlcp_mk _ hbl]
+  simp only [encCertificateRequestBody, nonEmptyVec8_append hty.1 hty.2]
+  have hv := readVec16_append hcl ([] : Bytes)
+  simp only [List.append_nil] at hv
+  rw [hv]
+  have hm := many_concatMap Spec.Codec.nonEmptyVec16 caItem (fun x => 0 < x.length ∧ x.length < 65536)
+    (fun x r hx => nonEmptyVec16_append hx.1 hx.2 r)
+    (fun x _ => by simp [caItem, be16]) m.cas (concatMap caItem m.cas).length hok (cas_ge_length _)
+  simp only [hm]
+
 /-! ### the tlcp complete-message guard (repair F18b) -/
 
 theorem tlcpIsComplete_ne_panic (data : Bytes) (t : Nat) : tlcpIsCompleteMessage data t ≠ .panic := by
@@ -1245,5 +1415,45 @@ theorem framed_of_guardT {α : Type} {c : Codes} {t : Nat} {data : Bytes} {k : O
   obtain ⟨hk, body, hd, hl⟩ := guardT_ok hon h
   subst hd
   exact ⟨hk, framed_tlcp_mk _ hl⟩
+
+/-- every strict decoder starts with `strictHeader` -/
+theorem strictBlob_header {st : Stack} {k : Kind} {b : Bytes} {h : DHdr} {m : Blob}
+    (hs : Spec.Codec.strictBlob st k b = some (h, m)) : ∃ hd body, Spec.Codec.strictHeader st k b = some (hd, body) := by
+  unfold Spec.Codec.strictBlob at hs
+  cases hsh : Spec.Codec.strictHeader st k b with
+  | none => rw [hsh] at hs; cases hs
+  | some p => exact ⟨p.1, p.2, rfl⟩
+
+theorem strictServerHelloDone_header {st : Stack} {b : Bytes} {h : DHdr}
+    (hs : Spec.Codec.strictServerHelloDone st b = some (h, ())) :
+    ∃ hd body, Spec.Codec.strictHeader st .serverHelloDone b = some (hd, body) := by
+  unfold Spec.Codec.strictServerHelloDone at hs
+  cases hsh : Spec.Codec.strictHeader st .serverHelloDone b with
+  | none => rw [hsh] at hs; simp at hs
+  | some p => exact ⟨p.1, p.2, rfl⟩
+
+theorem strictCertificate_header {st : Stack} {b : Bytes} {h : DHdr} {m : Certificate}
+    (hs : Spec.Codec.strictCertificate st b = some (h, m)) :
+    ∃ hd body, Spec.Codec.strictHeader st .certificate b = some (hd, body) := by
+  unfold Spec.Codec.strictCertificate at hs
+  cases hsh : Spec.Codec.strictHeader st .certificate b with
+  | none => rw [hsh] at hs; cases hs
+  | some p => exact ⟨p.1, p.2, rfl⟩
+
+theorem strictCertificateRequest_header {st : Stack} {b : Bytes} {h : DHdr} {m : CertificateRequest}
+    (hs : Spec.Codec.strictCertificateRequest st b = some (h, m)) :
+    ∃ hd body, Spec.Codec.strictHeader st .certificateRequest b = some (hd, body) := by
+  unfold Spec.Codec.strictCertificateRequest at hs
+  cases hsh : Spec.Codec.strictHeader st .certificateRequest b with
+  | none => rw [hsh] at hs; cases hs
+  | some p => exact ⟨p.1, p.2, rfl⟩
+
+/-- the guard lets through whatever has a strict tlcp header of that kind -/
+theorem guardT_of_strictHeader {α : Type} (c : Codes) {k : Kind} {t : Nat} (ht : t = k.code) {b : Bytes} {hd : DHdr}
+    {body : Bytes} (hsh : Spec.Codec.strictHeader .tlcp k b = some (hd, body)) (K : Outcome α) :
+    guardT c t b K = K := by
+  obtain ⟨hb, hl, _⟩ := strictHeader_tlcp_eq hsh
+  subst hb; subst ht
+  exact guardT_pass c _ hl K
 
 end Gotlcp.Lemmas.Codec
